@@ -3,6 +3,8 @@ Require Import GC.Base.Bytes GC.CT.IR GC.CT.Leak.
 Require Import GC.CT.CTSoundP1 GC.CT.CTSoundP2 GC.CT.CTSoundP3 GC.CT.CTSoundP4.
 Open Scope Z_scope.
 
+Local Opaque eval eval_list.
+
 Section Main.
   Variable fsem : expr -> list value -> value.
   Variables k1 k2 : bytes.
@@ -73,7 +75,7 @@ Section Main.
     - destruct (base_var dst) as [x|]; [|discriminate]. injection H as <- <-.
       assert (Hab : existsb (argbad t r) [dst; src] = false) by (simpl; rewrite Edst, Esrc; reflexivity).
       pose proof (evl_lt fsem k1 k2 t r e1 e2 [dst; src] (all_Pe t r e1 e2 He _) Hab) as HRa.
-      simpl. eapply R_app; [eapply R_app; [exact HRr|]; intros _; exact HRa|].
+      cbv beta iota delta [SR]. eapply R_app; [eapply R_app; [exact HRr|]; intros _; exact HRa|].
       intros HF. rewrite (map_len_of_low_t _ _ HF). apply R_same. split; [reflexivity|]. intros _.
       apply env_cons; [|apply env_taint, He].
       unfold var_rel. rewrite tmem_cons, bytes_eqb_refl. simpl.
@@ -81,7 +83,7 @@ Section Main.
     - apply orb_false_iff in Et. destruct Et as [Ets Etd]. injection H as <- <-.
       assert (Hab : existsb (tainted' t r) [dst; src] = false) by (simpl; rewrite Etd, Ets; reflexivity).
       pose proof (evs_eq t r e1 e2 [dst; src] He Hab) as HRa.
-      simpl. eapply R_app; [eapply R_app; [exact HRr|]; intros _; exact HRa|].
+      cbv beta iota delta [SR]. eapply R_app; [eapply R_app; [exact HRr|]; intros _; exact HRa|].
       intros E. rewrite E. apply R_same. split; [reflexivity|]. intros _.
       destruct (base_var dst); [apply env_cons_eq, He|exact He].
   Qed.
@@ -105,8 +107,8 @@ Section Main.
       destruct (exs1 ef e1 x) as [f1|] eqn:F1; [|discriminate].
       destruct (exs2 ef e2 x) as [f2|] eqn:F2; [|discriminate].
       simpl in X1, X2.
-      eapply then_sound; [eapply Hs; eauto| |exact X1|exact X2].
-      intros e1' e2' q1 q2 He' Q1 Q2. eapply IH; eauto.
+      eapply then_sound; [exact (Hs x t r tm rm Ex ef e1 e2 f1 f2 He F1 F2)| |exact X1|exact X2].
+      intros e1' e2' q1 q2 He' Q1 Q2. exact (IH tm rm t' r' Hct ef e1' e2' q1 q2 He' Q1 Q2).
   Qed.
 
   Theorem stmt_sound : forall af, stmt_ok af.
@@ -141,7 +143,8 @@ Section Main.
       + destruct (is_encoder f) eqn:Een; [discriminate|].
         destruct (call_stmt_sound _ _ _ _ _ _ Hct Een) as [Ht Hd].
         rewrite exec_define_call in X1, X2 by exact Ek. injection X1 as <-. injection X2 as <-.
-        eapply SR_simple; [apply (ev_eq t r); eauto|]. intros E. rewrite E. apply Hd, bind_equiv, He.
+        eapply SR_simple; [exact (ev_eq t r e1 e2 (ECall f args) He Ht)|]. intros E. rewrite E.
+        apply Hd, bind_equiv, He.
     - (* SAssign *)
       simpl in Hct. destruct (tainted' t r rhs) eqn:Et; [discriminate|].
       rewrite exec_assign in X1, X2. injection X1 as <-. injection X2 as <-.
@@ -157,14 +160,15 @@ Section Main.
       destruct ex as [y|y f|f args|y bs|y i|op y|op a b| |es0| ]; try discriminate.
       simpl in Hct. rewrite exec_sexpr_call in X1, X2. injection X1 as <-. injection X2 as <-.
       destruct (is_encoder f) eqn:Een.
-      + apply enc_stmt_sound; assumption.
+      + exact (enc_stmt_sound t r f args t' r' e1 e2 Een Hct He).
       + destruct (call_stmt_sound _ _ _ _ _ _ Hct Een) as [Ht Hd].
         unfold sexpr_env. rewrite Een.
-        eapply SR_simple; [apply (ev_eq t r); eauto|]. intros _. apply Hd, He.
+        eapply SR_simple; [exact (ev_eq t r e1 e2 (ECall f args) He Ht)|]. intros _. apply Hd, He.
     - (* SIf *)
-      simpl in Hct. rewrite !ct_list_eq in Hct. rewrite exec_if in X1, X2.
+      simpl in Hct. rewrite exec_if in X1, X2.
       destruct (match init with Some i => ct_stmt' af t r i | None => Some (t, r) end) as [[t1 r1]|] eqn:Ei;
         [|discriminate].
+      rewrite !ct_list_eq in Hct.
       destruct (tainted' t1 r1 c) eqn:Ec; [discriminate|].
       destruct (ct_stmts' af t1 r1 thn) as [[ta ra]|] eqn:Ea; [|discriminate].
       destruct (ct_stmts' af t1 r1 els) as [[tb rb]|] eqn:Eb; [|discriminate].
@@ -180,9 +184,9 @@ Section Main.
         - injection Ei as <- <-. injection F1 as <-. injection F2 as <-.
           apply (SR_simple _ _ True); [apply R_nil; exact I|]. intros _; exact He. }
       eapply then_sound; [exact HS| |exact X1|exact X2].
-      intros e1' e2' q1 q2 He' Q1 Q2.
-      destruct (exl1 ef e1' (if truthy (fst (ev1 e1' c)) then thn else els)) as [b1|] eqn:B1; [|discriminate].
-      destruct (exl2 ef e2' (if truthy (fst (ev2 e2' c)) then thn else els)) as [b2|] eqn:B2; [|discriminate].
+      intros e1' e2' q1 q2 He' Q1 Q2. cbv beta in Q1, Q2.
+      destruct (exl1 ef e1' (if truthy (fst (ev1 e1' c)) then thn else els)) as [b1|] eqn:B1; [|simpl in Q1; discriminate].
+      destruct (exl2 ef e2' (if truthy (fst (ev2 e2' c)) then thn else els)) as [b2|] eqn:B2; [|simpl in Q2; discriminate].
       simpl in Q1, Q2. injection Q1 as <-. injection Q2 as <-.
       eapply SR_pre; [apply (ev_eq t1 r1); eauto|]. intros E. rewrite E in *.
       apply (SR_pre _ _ True); [apply R_same; exact I|]. intros _.
@@ -200,8 +204,9 @@ Section Main.
       rewrite exec_return in X1, X2. injection X1 as <-. injection X2 as <-.
       simpl. eapply R_mono; [apply (evs_eq t r); eauto|]. intros E. rewrite E. split; [reflexivity|discriminate].
     - (* SFor *)
-      simpl in Hct. rewrite !ct_list_eq in Hct.
+      simpl in Hct. rewrite ct_list_eq in Hct.
       destruct (ct_stmts' af t r body) as [[ti ri]|] eqn:Eb1; [|discriminate].
+      rewrite ct_list_eq in Hct.
       destruct (existsb (tainted' ti ri) parts || negb (subset t ti && subset r ri)) eqn:Ex; [discriminate|].
       apply orb_false_iff in Ex. destruct Ex as [Epar Esub]. apply negb_false_iff in Esub.
       apply andb_true_iff in Esub. destruct Esub as [Est Esr].
@@ -209,7 +214,8 @@ Section Main.
       destruct (subset t2 ti && subset r2 ri) eqn:Es2; [|discriminate]. injection Hct as <- <-.
       apply andb_true_iff in Es2. destruct Es2 as [Es2t Es2r].
       assert (He' : env_low_equiv2 ti ri e1 e2).
-      { eapply env_weaken; [| |exact He]; intros x Hx; eapply subset_tmem; eauto. }
+      { eapply env_weaken; [| |exact He]; intros x Hx;
+          [exact (subset_tmem _ _ x Est Hx)|exact (subset_tmem _ _ x Esr Hx)]. }
       clear He Eb1 Est Esr. revert e1 e2 res1 res2 He' X1 X2.
       induction (S ef) as [|n IHn]; intros e1 e2 res1 res2 He X1 X2; [discriminate|].
       rewrite exec_for in X1, X2.
@@ -221,7 +227,8 @@ Section Main.
                  SR ti ri q1 q2).
       { intros f1 f2 q1 q2 B1 B2 T1 T2.
         eapply then_sound; [| |exact T1|exact T2].
-        - apply (SR_weaken t2 r2); [intros x Hx; eapply subset_tmem; eauto|intros x Hx; eapply subset_tmem; eauto|].
+        - apply (SR_weaken t2 r2);
+            [intros x Hx; exact (subset_tmem _ _ x Es2t Hx)|intros x Hx; exact (subset_tmem _ _ x Es2r Hx)|].
           eapply (list_sound af IHaf); eauto.
         - intros e1' e2' a1 a2 He'' A1 A2. eapply IHn; eauto. }
       destruct (loop_cond (fst (evl1 e1 parts))) eqn:C1, (loop_cond (fst (evl2 e2 parts))) eqn:C2.
@@ -254,3 +261,69 @@ Section Main.
       discriminate.
   Qed.
 End Main.
+
+(* ------------------------------------------------------------------------------------------- main results *)
+(* The two runs differ in the secret key (k1 / k2, equal lengths) and in the parsed hash record that
+   Unmarshal delivers through its out-parameter (pend1 / pend2: equal except for the content of field Sum,
+   equal lengths); everything else is equal.  Their traces agree up to the first ConstantTimeCompare whose
+   verdict differs; if all verdicts agree the traces (and the returned values) are identical. *)
+Theorem ct_sound_strong :
+  forall body fuel fsem k1 k2 pend1 pend2 env1 env2 r1 r2 tr1 tr2 e1' e2',
+    ct_ok' body = true -> len_respecting fsem -> length k1 = length k2 ->
+    pend_low_equiv pend1 pend2 -> env_low_equiv [] env1 env2 ->
+    exec fuel fsem k1 pend1 env1 body = Some (e1', r1, tr1) ->
+    exec fuel fsem k2 pend2 env2 body = Some (e2', r2, tr2) ->
+    tsim tr1 tr2 /\ (ctc_verdicts tr1 = ctc_verdicts tr2 -> tr1 = tr2 /\ r1 = r2).
+Proof.
+  intros body fuel fsem k1 k2 pend1 pend2 env1 env2 r1 r2 tr1 tr2 e1' e2' Hok HLR Hk Hp He X1 X2.
+  unfold ct_ok' in Hok. apply andb_true_iff in Hok. destruct Hok as [_ Hok].
+  destruct (ct_stmts' 50 [] [] body) as [[t' r']|] eqn:Hct; [|discriminate].
+  pose proof (list_sound fsem k1 k2 pend1 pend2 50 (stmt_sound fsem k1 k2 Hk HLR pend1 pend2 Hp 50)
+                body [] [] t' r' Hct fuel env1 env2 _ _ He X1 X2) as HS.
+  simpl in HS. destruct HS as [HT HE]. split; [exact HT|].
+  intros Hv. pose proof (tsim_verdicts_eq _ _ HT Hv) as E. split; [exact E|]. apply (HE E).
+Qed.
+
+Theorem ct_sound :
+  forall body fuel fsem k1 k2 pend1 pend2 env1 env2 r1 r2 tr1 tr2 e1' e2',
+    ct_ok' body = true -> len_respecting fsem -> length k1 = length k2 ->
+    pend_low_equiv pend1 pend2 ->                       (* the stored hashes differ only in the bytes of .Sum *)
+    env_low_equiv [] env1 env2 ->                       (* initially nothing is tainted *)
+    exec fuel fsem k1 pend1 env1 body = Some (e1', r1, tr1) ->
+    exec fuel fsem k2 pend2 env2 body = Some (e2', r2, tr2) ->
+    ctc_verdicts tr1 = ctc_verdicts tr2 ->              (* the declassified verdicts of ConstantTimeCompare agree *)
+    strip_verdicts tr1 = strip_verdicts tr2.            (* then everything timing can reveal is identical *)
+Proof.
+  intros body fuel fsem k1 k2 pend1 pend2 env1 env2 r1 r2 tr1 tr2 e1' e2' Hok HLR Hk Hp He X1 X2 Hv.
+  destruct (ct_sound_strong body fuel fsem k1 k2 pend1 pend2 env1 env2 r1 r2 tr1 tr2 e1' e2'
+              Hok HLR Hk Hp He X1 X2) as [_ H].
+  destruct (H Hv) as [E _]. rewrite E. reflexivity.
+Qed.
+
+(* initially-untainted low-equivalence is plain agreement of the two environments *)
+Lemma env_low_equiv_nil_refl e : env_low_equiv [] e e.
+Proof. intros x. destruct (lookup x e); [reflexivity|exact I]. Qed.
+
+(* the theorem applies to the ten generated Check bodies, e.g. md5, with the concrete fsem of CTSoundP5 *)
+Require Import GC.CT.CTSoundP5 GC.Generated.Gen_check_ir.
+Corollary ct_sound_md5 :
+  forall fuel k1 k2 sum1 sum2 env0 r1 r2 tr1 tr2 e1' e2',
+    length k1 = length k2 -> length sum1 = length sum2 ->
+    exec fuel fsem_ex k1 (pend_of sum1) env0 check_ir_md5 = Some (e1', r1, tr1) ->
+    exec fuel fsem_ex k2 (pend_of sum2) env0 check_ir_md5 = Some (e2', r2, tr2) ->
+    ctc_verdicts tr1 = ctc_verdicts tr2 -> strip_verdicts tr1 = strip_verdicts tr2.
+Proof.
+  intros fuel k1 k2 sum1 sum2 env0 r1 r2 tr1 tr2 e1' e2' Hk Hs X1 X2 Hv.
+  assert (Hp : pend_low_equiv (pend_of sum1) (pend_of sum2)).
+  { intros x. unfold pend_of. simpl. match goal with |- context [bytes_eqb x ?s] => destruct (bytes_eqb x s) end; [|exact I].
+    right. do 2 eexists. split; [reflexivity|]. split; [reflexivity|].
+    constructor; [split; [reflexivity|reflexivity]|].
+    constructor; [|constructor]. split; [reflexivity|]. simpl.
+    right. exists sum1, sum2. auto. }
+  exact (ct_sound check_ir_md5 fuel fsem_ex k1 k2 _ _ env0 env0 r1 r2 tr1 tr2 e1' e2'
+           (proj2 md5_accepted) fsem_ex_len_respecting Hk Hp (env_low_equiv_nil_refl env0) X1 X2 Hv).
+Qed.
+
+Print Assumptions ct_sound_strong.
+Print Assumptions ct_sound_md5.
+Print Assumptions ct_sound.
